@@ -425,6 +425,28 @@ def sha(text):
 def splice_fn(item_text, ann, log):
     """ann: dict(spec=str, start=str, attr=[..], loops={n:(guard,payload)}, before=[(k,text,payload)], tail=str)"""
     prefix, body, rest = rs.fn_parts(item_text)
+    lost = []
+    for nname, nann in (ann.get('nested') or {}).items():
+        mb = rs.mask(body)
+        mm = re.search(r'\bfn\s+%s\b' % re.escape(nname), mb)
+        if not mm:
+            lost.append('nested fn %s not found' % nname)
+            continue
+        # extent of the nested fn
+        j = mm.start()
+        pd = 0
+        k = j
+        while k < len(mb):
+            if mb[k] in '([':
+                pd += 1
+            elif mb[k] in ')]':
+                pd -= 1
+            elif mb[k] == '{' and pd == 0:
+                break
+            k += 1
+        close = rs.match_brace(mb, k)
+        inner = splice_fn(body[j:close + 1], nann, log)
+        body = body[:j] + inner + body[close + 1:]
     # loops / before-anchors are located on the body text; collect insertions as (pos, text)
     ins = []
     mbody = rs.mask(body)
@@ -432,17 +454,20 @@ def splice_fn(item_text, ann, log):
         lp = rs.loops_in(body)
         for n, (guard, payload) in ann['loops'].items():
             if n < 1 or n > len(lp):
-                raise LostAnchor('loop %d not found (function has %d loops)' % (n, len(lp)))
+                lost.append('loop %d not found (function has %d loops)' % (n, len(lp)))
+                continue
             kwpos, bopen, kw = lp[n - 1]
             hdr = re.sub(r'\s+', ' ', body[kwpos:bopen]).strip()
             if guard and re.sub(r'\s+', ' ', guard).strip() not in hdr:
-                raise LostAnchor('loop %d header %r does not contain guard %r' % (n, hdr, guard))
+                lost.append('loop %d header %r does not contain guard %r' % (n, hdr, guard))
+                continue
             ins.append((bopen, '\n' + payload + '\n'))
     for kind in ('loopend', 'loopstart', 'preloop', 'postloop'):
         for n, payload in ann.get(kind, {}).items():
             lp = rs.loops_in(body)
             if n < 1 or n > len(lp):
-                raise LostAnchor('loop %d not found (function has %d loops)' % (n, len(lp)))
+                lost.append('%s %d: loop not found (function has %d loops)' % (kind, n, len(lp)))
+                continue
             if kind == 'loopend':
                 pos = rs.match_brace(mbody, lp[n - 1][1])
             elif kind == 'postloop':
@@ -471,7 +496,8 @@ def splice_fn(item_text, ann, log):
                     break
             sidx = p + 1
         if pos < 0:
-            raise LostAnchor('anchor %r (#%d) not found' % (text, k))
+            lost.append('anchor %r (#%d) not found' % (text, k))
+            continue
         ls = body.rfind('\n', 0, pos) + 1
         ins.append((ls, payload + '\n'))
     st = '' if ann.get('noaxioms') else 'proof { unit_axioms(); }'
@@ -497,6 +523,8 @@ def splice_fn(item_text, ann, log):
             ty = ty[:mw.start()].strip()
         prefix = prefix[:idx] + '-> (%s: %s)%s\n' % (rn, ty, wh)
     attrs = ''.join(a + '\n' for a in ann.get('attr', []))
+    if lost:
+        log.append(('LOST-ANCHOR', lost))
     return attrs + prefix.rstrip() + '\n' + spec + '\n' + body + rest
 
 
@@ -561,7 +589,8 @@ def generate(unit_path, repo=REPO):
                 opts = dict(re.findall(r'\b(props|kind|ret|rename|vis)=(\S+)', rest))
                 ipath = re.sub(r'\s*\b(props|kind|ret|rename|vis)=\S+', '', rest).strip()
                 props = opts.get('props', ','.join(cur_props)).split(',') if (opts.get('props') or cur_props) else []
-                ann = dict(attr=[], loops={}, loopend={}, loopstart={}, preloop={}, postloop={}, before=[], ret=opts.get('ret'))
+                ann = dict(attr=[], loops={}, loopend={}, loopstart={}, preloop={}, postloop={}, before=[], ret=opts.get('ret'), nested={})
+                top_ann = ann
                 i += 1
                 section = None
                 payload = []
@@ -591,7 +620,11 @@ def generate(unit_path, repo=REPO):
                             close_section()
                             break
                         close_section()
-                        if d2.startswith('attr '):
+                        if d2.startswith('nested '):
+                            nm = d2.split()
+                            ann = dict(attr=[], loops={}, loopend={}, loopstart={}, preloop={}, postloop={}, before=[], ret=dict(re.findall(r'(ret)=(\S+)', d2)).get('ret'), nested={})
+                            top_ann['nested'][nm[1]] = ann
+                        elif d2.startswith('attr '):
                             ann['attr'].append(d2[5:])
                         elif d2 == 'spec':
                             section = 'spec'
@@ -613,6 +646,7 @@ def generate(unit_path, repo=REPO):
                     else:
                         payload.append(l2)
                     i += 1
+                ann = top_ann
                 # extract
                 fpath = os.path.join(repo, file)
                 if fpath not in src_cache:
@@ -645,7 +679,7 @@ def generate(unit_path, repo=REPO):
                 if opts.get('vis') == 'pub':
                     if not re.match(r'\s*(#\[[^\]]*\]\s*)*pub\b', text):
                         text = re.sub(r'^(\s*(?:#\[[^\]]*\]\s*)*)', r'\1pub ', text, count=1)
-                items.append(dict(file=file, path=ipath, sha256=sha(raw), rewrites=[dict(rule=r, count=c) for r, c in log],
+                items.append(dict(file=file, path=ipath, sha256=sha(raw), rewrites=[dict(rule=r, count=c) for r, c in log if r != 'LOST-ANCHOR'], lost=[x for r, c in log if r == 'LOST-ANCHOR' for x in c],
                                   lines=[src.count('\n', 0, it['start']) + 1, src.count('\n', 0, it['end']) + 1], props=props, kind=it['kind']))
                 emit(text, 'item', ipath, props)
             else:
